@@ -378,12 +378,22 @@ def r4_order(ctx):
     if not ev_locals:
         raise CheckError("R-C04-4: the list collecting try_recv results was not found in Environment::step")
     ev = ev_locals[0]
+    # the list may be handed on by value (returned from a collecting helper through Ok(..)?, re-bound): every Vec-typed local it flows to is the list
+
+    def is_vec(l):
+        ty = es.local_ty(l)
+        while ty.startswith("&"):
+            ty = ty[1:].lstrip()
+            if ty.startswith("mut "):
+                ty = ty[4:]
+        return ty.startswith(("std::vec::Vec<", "alloc::vec::Vec<", "Vec<"))
+    group = {l for l in Flow(es, through_named=True).forward({ev}, through_calls=("Try::branch",)) if is_vec(l)} | {ev}
     ops = []
     for bi, t in es.calls():
         if not t["args"]:
             continue
         cp = fl.canon_op(t["args"][0])
-        if cp and cp[0] == ev:
+        if cp and cp[0] in group and not cp[1]:
             ops.append((bi, t["callee"].split("::")[-1] if t.get("callee") else "?"))
     names = sorted({m for _b, m in ops})
     ok = set(names) <= {"push", "into_iter", "new", "is_empty", "len", "deref"} and "push" in names and "into_iter" in names
